@@ -66,28 +66,31 @@ def permDecompr (ops : CutoffOps) (c : Cell) (n : Nat) (rk : RepKind) (stages : 
       updatePerm c.N ad rk st (stageCombs ops c n cut st) (nBatch st.batchKey) ptr))
     (some (Array.replicate size (-1)))
 
+/-- one sweep of label propagation over the edges `e — ptr[e]`: both end points take the smaller label -/
+def relaxOnce (ptr : Array Int) (lab : Array Int) : Array Int :=
+  (List.range ptr.size).foldl
+    (fun lab e =>
+      let p := ptr.getD e (-1)
+      if p == -1 then lab else
+      let le := lab.getD e (-1)
+      let lp := lab.getD p.toNat (-1)
+      if lp == -1 then lab else
+      let m := min le lp
+      (lab.setIfInBounds e m).setIfInBounds p.toNat m)
+    lab
+
+/-- iterate `relaxOnce` until nothing changes (at most `fuel` sweeps) -/
+def relaxFix (ptr : Array Int) : Nat → Array Int → Array Int
+  | 0, lab => lab
+  | fuel + 1, lab =>
+    let lab' := relaxOnce ptr lab
+    if lab' == lab then lab else relaxFix ptr fuel lab'
+
 /-- weakly connected components of the functional graph `e → ptr[e]` on `{e | ptr[e] ≠ -1}`;
     result: for every element the smallest member of its component, or `-1`.
-    (label propagation to a fixed point; `size` rounds suffice) -/
-def componentLabels (ptr : Array Int) : Array Int := Id.run do
-  let n := ptr.size
-  let mut lab : Array Int := Array.ofFn (n := n) (fun i => if ptr.getD i (-1) == -1 then -1 else Int.ofNat i)
-  for _ in List.range n do
-    let mut changed := false
-    for e in List.range n do
-      let p := ptr.getD e (-1)
-      if p != -1 then
-        let le := lab.getD e (-1)
-        let lp := lab.getD p.toNat (-1)
-        if lp != -1 then
-          let m := min le lp
-          if m != le then
-            lab := lab.setIfInBounds e m
-            changed := true
-          if m != lp then
-            lab := lab.setIfInBounds p.toNat m
-            changed := true
-    if !changed then break
-  return lab
+    (label propagation to a fixed point; `size` sweeps suffice) -/
+def componentLabels (ptr : Array Int) : Array Int :=
+  relaxFix ptr ptr.size
+    (Array.ofFn (n := ptr.size) (fun i => if ptr.getD i.val (-1) == -1 then -1 else Int.ofNat i.val))
 
 end Symfc
